@@ -809,7 +809,11 @@ class MailExecutor(UnitsExecutor):
         decides from the sequence the loop walks what it has to say, so adding, removing or reordering loops re-verifies.  The
         label (part of the obligation ids) is the last name of the iterated expression (`for a in mail.attachments` -> attachments)."""
         spec = super().loop_spec(node)
-        if spec is None and self.contract is not None and self.inline_depth == 0 and "*" in self.contract.loops:
+        # (round 6) the wildcard invariant is content-based (it reads the walked sequence, not the function's locals), so it also
+        # applies to loops of private helpers of the same module that are executed in place (`extract method` of a stage)
+        inlined_local = self.inline_depth > 0 and self.cur_fn_stack and not isinstance(self.cur_fn_stack[-1], ast.Lambda) \
+            and any(self.cur_fn_stack[-1] is f for f in self.module.functions.values())
+        if spec is None and self.contract is not None and (self.inline_depth == 0 or inlined_local) and "*" in self.contract.loops:
             from pyvc.contracts import LoopSpec
             e = node.iter if isinstance(node, ast.For) else None
             while isinstance(e, ast.Call) and e.args:
@@ -833,6 +837,13 @@ class MailExecutor(UnitsExecutor):
                          for b in s.body for n in ast.walk(b))
             self._map_shapes = {}
             self._append_kinds = self.probe_kinds(s, st, it) if builds else {}
+            spec = self.loop_spec(s)
+            if (spec is None or (spec.inv is None and spec.inv_point is None)) and self.seq_view(st, it) is not None \
+                    and (builds or self.assigned_names(s.body)):
+                # (round 6) a symbolic loop cut with invariant `True`: whatever the loop assigns / builds is arbitrary afterwards.
+                # That is an over-approximation, not a fact about the code -- a VC refuted on this path is `unknown` (the native
+                # replayer decides), like after an unmodelled call.
+                self.tag_havoc(st, "loop cut without invariant", s)
         return super().symbolic_for(s, st, it)
 
     # --------------------------------------------------- maps with symbolic STRING keys --
